@@ -421,7 +421,10 @@ pub async fn run_episode(id: &str, cfg: &Value, gen: &mut Gen, steps: usize, nco
         let post = s.snapshot().await;
         s.retire_ended();
         let panics = take_panics();
-        let iss: Vec<String> = issue.into_iter().collect();
+        let mut iss: Vec<String> = issue.into_iter().collect();
+        if post["blocked"].as_bool().unwrap_or(false) {
+            iss.push("watchdog: the server state stayed locked for 8 s (a handler is holding it)".to_string());
+        }
         let dead = post["dead"].as_array().map(|a| !a.is_empty()).unwrap_or(false);
         let stop = !iss.is_empty() || dead || !panics.is_empty() || !post["up"].as_bool().unwrap_or(true);
         out.push(json!({"b": id, "i": i + 1, "c": c, "cmd": cm, "outs": outs,
@@ -431,7 +434,7 @@ pub async fn run_episode(id: &str, cfg: &Value, gen: &mut Gen, steps: usize, nco
             break;
         }
     }
-    s.stop().await;
+    let _ = tokio::time::timeout(std::time::Duration::from_secs(5), s.stop()).await;
 }
 
 pub fn main(args: &[String]) -> i32 {
